@@ -60,12 +60,17 @@ static int select_id(int id) {
 		ep_param_set(id);
 #if defined(WITH_PP)
 		if (ep_curve_is_pairf() && ep_curve_embed() == 12) {
-			ep2_curve_set_twist(RLC_EP_DTYPE);
+			/* the twist type is the caller's knowledge: take the one under which the Frobenius
+			 * endomorphism acts on the generator as multiplication by p (selection only, not a verdict) */
 			{
-				ep2_t g; ep2_null(g); ep2_new(g);
+				ep2_t g, f; bn_t pp;
+				ep2_null(g); ep2_null(f); bn_null(pp); ep2_new(g); ep2_new(f); bn_new(pp);
+				ep2_curve_set_twist(RLC_EP_DTYPE);
 				ep2_curve_get_gen(g);
-				if (!ep2_on_curve(g)) ep2_curve_set_twist(RLC_EP_MTYPE);
-				ep2_free(g);
+				pp->used = RLC_FP_DIGS; pp->sign = RLC_POS; dv_copy(pp->dp, fp_prime_get(), RLC_FP_DIGS);
+				ep2_frb(f, g, 1); ep2_mul_basic(g, g, pp);
+				if (ep2_cmp(f, g) != RLC_EQ) ep2_curve_set_twist(RLC_EP_MTYPE);
+				ep2_free(g); ep2_free(f); bn_free(pp);
 			}
 		}
 #endif
